@@ -1,10 +1,12 @@
 """C12: reads through the extensible file return the bytes last written; sizes follow the policy."""
+import os
 from vlib import common as C
 from vlib.diff import Case, differential
 
 LEVEL = "proof"
 # C functions this check's models mirror (source-text fingerprints are recorded in the evidence, see translate/funchash.py)
-MODELLED_FUNCS = {'src/fs/iwexfile.c': ['_exfile_write', '_exfile_read', '_exfile_copy', '_exfile_ensure_size_lw', '_exfile_truncate_lw', '_exfile_initmmap_slot_lw', '_exfile_add_mmap', '_exfile_remove_mmap', 'iw_exfile_szpolicy_fibo', 'iw_exfile_szpolicy_mul']}
+MODELLED_FUNCS = {'src/fs/iwexfile.c': ['_exfile_write', '_exfile_read', '_exfile_copy', '_exfile_ensure_size_lw', '_exfile_truncate_lw', '_exfile_initmmap_slot_lw', '_exfile_add_mmap', '_exfile_remove_mmap', 'iw_exfile_szpolicy_fibo', 'iw_exfile_szpolicy_mul', '_exfile_close'],
+                  'src/fs/iwfile.c': ['_iwfs_write', '_iwfs_copy', '_iwfs_sync']}
 MANIFEST = dict(
     level="proof",
     text=("Lean 4 theorems over an executable model of iwexfile.c (request splitting between mapped windows and the file, "
@@ -14,11 +16,19 @@ MANIFEST = dict(
           "equal to the physical size unless a copy went beyond it (characterised exactly, as is the size the next open sees); ensure_size reaches every "
           "request maxoff admits and the growth sequences of all policies are monotone, aligned and bounded by maxoff; with any number of private "
           "windows every history refines a two-layer reference (file array + per-window copy-on-write pages), a write is always read back, "
-          "and a later read differs from the flat array exactly under the stated remap/remove/file-copy condition. The model is tied to the code "
-          "by a differential run of the real IWFS_EXT (ASan/UBSan build) against the compiled Lean model, with a flat shadow array as oracle"),
+          "and a later read differs from the flat array exactly under the stated remap/remove/file-copy condition. Data listener (iwdlsnr.h): the model "
+          "returns, per call, the listener calls the code makes (onresize / onwrite per piece / oncopy, passive listener or one that resizes itself "
+          "as the WAL does); replaying them on a copy of the old file gives exactly the new file and size for every call and history with shared "
+          "windows (listener completeness), every event fits the size the listener was told, with private windows the replay is the flat "
+          "expectation and agrees with a read exactly where the call does not diverge; a store through acquire_mmap is not reported (stated). "
+          "The model is tied to the code by a differential run of the real IWFS_EXT (ASan/UBSan build) against the compiled Lean model, with a "
+          "flat shadow array as oracle and, for the listener, a recording IWDLSNR in the harness whose calls are compared line by line with the "
+          "model's and replayed by an independent python oracle against the file (page hashes through read and through a pread of its own)"),
     note=("trusted: Lean kernel, translator, harness/generator, gcc+ASan/UBSan, Linux coherence of MAP_SHARED mappings with pread/pwrite and "
           "page-granular copy-on-write of MAP_PRIVATE; modelled not verified: the C control flow of iwexfile.c/iwfile.c/iwp_copy_bytes; "
-          "no data listener (dlsnr), single thread, offsets < 2^62; models the tree with the F29 fix"),
+          "listener callbacks that fail are not modelled (the recording listener always returns 0), onopen is never called by the code, "
+          "the WAL's checkpoint/rollforward (remap shared, apply, remap private) is not modelled; single thread, offsets < 2^62; "
+          "models the tree with the F29 fix and the fix of the window-relative onwrite offset (C12-LSNOFF)"),
     technique="Lean 4 proof over executable model + differential correspondence (C harness vs compiled Lean driver) + flat shadow oracle")
 MODULE = "IwModel.Props.C12"
 THEOREMS = [
@@ -35,6 +45,10 @@ THEOREMS = [
     # resize policies
     "IwModel.C12.ensure_reaches_request", "IwModel.C12.ensure_beyond_maxoff_fails", "IwModel.C12.policy_fits",
     "IwModel.C12.resize_sequence", "IwModel.C12.fibo_sequence_reaches",
+    # data listener (dlsnr round)
+    "IwModel.C12.listener_model_agrees", "IwModel.C12.listener_complete", "IwModel.C12.listener_complete_step",
+    "IwModel.C12.listener_events_fit", "IwModel.C12.unreported_store_invisible", "IwModel.C12.listener_holds_flat_array",
+    "IwModel.C12.listener_vs_read",
 ]
 
 PS = 4096
@@ -133,8 +147,12 @@ class Flat:
 
     def step(self, op, out=None):
         w = op.split()
+        if out is not None and " |" in out:
+            out = out[:out.index(" |")]        # calls received by the data listener: judged by LsnOracle
         o = out.split() if out is not None else None
         k = w[0]
+        if k == "lsn":
+            return None
         if k == "open":
             kind, n, d, maxoff, initial, trunc = w[1], int(w[2]), int(w[3]), int(w[4]), int(w[5]), int(w[6])
             if trunc:
@@ -162,7 +180,7 @@ class Flat:
             return None
         if not self.open:
             return None if o is None or o[0] == "closed" else "[rc] %s on a closed file gave %s" % (op, out)
-        if k not in ("close", "w", "r", "cp", "tr", "es", "am", "rm", "sm", "pm", "mw", "ra", "sy", "st"):
+        if k not in ("close", "w", "r", "cp", "tr", "es", "am", "rm", "sm", "pm", "mw", "mwr", "ra", "sy", "st", "rx", "fx"):
             return None if o is None or o[0] == "bad-op" else "[rc] %s answered %s" % (op, out)
         if o is not None and o[0] != k:
             return "[rc] %s answered %s" % (op, out)
@@ -253,7 +271,7 @@ class Flat:
             if o[1] != exp:
                 return "[rc] %s: expected %s, got %s" % (op, exp, o[1])
             return self._sizes_ok(int(o[2]))
-        if k == "mw":
+        if k in ("mw", "mwr"):
             if o is None:
                 return None
             if o[1] == "ok":
@@ -271,11 +289,160 @@ class Flat:
         return None   # am rm sm pm ra sy: no effect on the flat array
 
 
+class LsnOracle:
+    """What a data listener (src/fs/iwdlsnr.h) can rebuild from the calls it receives, written from the header's wording and
+    from what the WAL does with them (memmove of the payload / memset / memmove inside the file / truncate with zero fill).
+    It reads only the implementation's lines: the recorded calls behind " |", the sizes the API reports, and the page hashes
+    of `rx` (through IWFS_EXT.read) and `fx` (a pread of the harness's own).  Knows nothing about windows or pieces."""
+
+    def __init__(self):
+        self.mode = 0
+        self.sh = bytearray()      # the listener's copy
+        self.size = 0              # the size the listener knows (the file as it found it, then every onresize)
+        self.open = False
+        self.private = False       # a private window exists: the file on disk lags behind on purpose
+        self.loose = False         # after a store nobody reported / a copy with an unspecified result
+
+    def _in(self, a, n):
+        return a >= 0 and n >= 0 and a + n <= self.size
+
+    def _apply(self, op, evs, k):
+        prev = None
+        for e in evs:
+            t = e.split(":")
+            if t[0] == "W":
+                off, ln = int(t[1]), int(t[2])
+                data = b"" if t[3] == "-" else bytes.fromhex(t[3])
+                if len(data) != ln:
+                    return "[lsn-args] %s: onwrite(%d, len %d) came with %d bytes" % (op, off, ln, len(data))
+                if not self._in(off, ln):
+                    return "[lsn-args] %s: onwrite(%d, %d) lies outside the %d bytes the listener was told the file has" % (op, off, ln, self.size)
+                self.sh[off:off + ln] = data
+            elif t[0] == "S":
+                off, val, ln = int(t[1]), int(t[2]), int(t[3])
+                if not self._in(off, ln):
+                    return "[lsn-args] %s: onset(%d, %d) lies outside the %d bytes the listener was told the file has" % (op, off, ln, self.size)
+                self.sh[off:off + ln] = bytes([val]) * ln
+            elif t[0] == "C":
+                off, ln, noff = int(t[1]), int(t[2]), int(t[3])
+                if not (self._in(off, ln) and self._in(noff, ln)):
+                    return "[lsn-args] %s: oncopy(%d, %d, %d) lies outside the %d bytes the listener was told the file has" % (op, off, ln, noff, self.size)
+                self.sh[noff:noff + ln] = bytes(self.sh[off:off + ln])
+            elif t[0] == "R":
+                o, n = int(t[1]), int(t[2])
+                if o != self.size:
+                    return "[lsn-args] %s: onresize(%d, %d): the old size the listener knows is %d" % (op, o, n, self.size)
+                if o == n:
+                    return "[lsn-args] %s: onresize(%d, %d) without a change" % (op, o, n)
+                del self.sh[n:]
+                self.sh.extend(bytes(n - len(self.sh)))
+                self.size = n
+            elif t[0] == "r":
+                if self.mode != 2 or prev is None or prev[0] != "R" or prev[1:] != e[1:]:
+                    return "[lsn-args] %s: nested onresize %s without the resize it belongs to" % (op, e)
+            elif t[0] == "Y":
+                if k != "sy":
+                    return "[lsn-args] %s: onsynced outside sync" % op
+            elif t[0] == "X":
+                if k != "close":
+                    return "[lsn-args] %s: onclosing outside close" % op
+            elif t[0] == "O":
+                pass
+            else:
+                return "[lsn-args] %s: unreadable listener call %r" % (op, e[:60])
+            if self.mode == 2 and prev is not None and prev[0] == "R" and t[0] != "r":
+                return "[lsn-args] %s: the listener's own truncate_unsafe after %s did not come back to it" % (op, prev)
+            prev = e
+        if self.mode == 2 and prev is not None and prev[0] == "R":
+            return "[lsn-args] %s: the listener's own truncate_unsafe after %s did not come back to it" % (op, prev)
+        return None
+
+    def _pages(self, data):
+        return ["%08x" % fnv32(data[i:i + PS]) for i in range(0, len(data), PS)][:400]
+
+    def step(self, op, line):
+        w = op.split()
+        k = w[0]
+        if k == "lsn":
+            self.mode = int(w[1]) if w[1] in ("0", "1", "2") else 0
+            return None
+        if self.mode == 0:
+            if " |" in line:
+                return "[lsn-args] %s: listener calls without a listener: %s" % (op, line[:80])
+            return None
+        if " |" not in line:
+            return "[lsn-args] %s: no listener section in %r" % (op, line[:80])
+        head, tail = line.split(" |", 1)
+        o = head.split()
+        evs = tail.split()
+        if "overflow" in evs:
+            return "[lsn-args] %s: more than 200 listener calls in one operation" % op
+        if k == "open":
+            if int(w[6]):
+                self.sh = bytearray()
+            self.size = len(self.sh)          # the listener finds the file as the last close left it
+            self.private = False
+            self.open = o[1] == "ok"
+        elif not self.open:
+            return None if not evs else "[lsn-args] %s on a closed file told the listener %s" % (op, tail[:60])
+        before = bytes(self.sh) if k == "cp" else None
+        msg = self._apply(op, evs, k)
+        if msg:
+            return msg
+        if k == "close":
+            self.open = False
+            if "X" not in evs:
+                return "[lsn-args] close: onclosing was not called"
+        if k == "sy" and o[1] == "ok" and "Y" not in evs:
+            return "[lsn-args] sync: onsynced was not called"
+        if k == "am" and o[1] == "ok" and int(w[3]) & 1:
+            self.private = True
+        if o[0] != k:
+            return None
+        # the size the API reports is the size the listener was told
+        fs = int(o[2]) if k in ("open", "cp", "tr", "es") else int(o[3]) if k == "w" else int(o[1]) if k in ("st", "rx") else None
+        if fs is not None and (k != "open" or o[1] == "ok") and fs != self.size:
+            return "[lsn-size] %s: the file has %d bytes, the listener was told %d" % (op, fs, self.size)
+        if k == "w" and o[1] == "ok":
+            off, ln = int(w[1]), int(w[2])
+            if bytes(self.sh[off:off + ln]) != pat(int(w[3]), ln):
+                return "[lsn-content] %s: the listener's copy does not hold the bytes written (a piece of the write was not reported, or with wrong arguments)" % op
+        if k == "mwr" and o[1] == "ok":
+            off, ln = int(w[1]) + int(w[2]), int(w[3])
+            if bytes(self.sh[off:off + ln]) != pat(int(w[4]), ln):
+                return "[lsn-content] %s: the caller's own onwrite did not reach the listener" % op
+        if k == "mw" and o[1] == "ok":
+            # not reported by the file layer (the caller's duty): the listener cannot know; keep our copy usable
+            off, ln = int(w[1]) + int(w[2]), int(w[3])
+            self.sh[off:off + ln] = pat(int(w[4]), ln)
+        if k == "cp" and o[1] == "ok" and not self.loose:
+            off, siz, noff = int(w[1]), int(w[2]), int(w[3])
+            if off + siz <= len(before) and noff + siz <= len(before):
+                if bytes(self.sh[noff:noff + siz]) != before[off:off + siz]:
+                    return "[lsn-content] %s: the listener's copy of the destination differs from the source bytes (copy not reported, or with wrong arguments)" % op
+            else:
+                self.loose = True
+        if k == "rx" and not self.loose:
+            exp = self._pages(bytes(self.sh[:self.size]))
+            got = o[2:]
+            if got != exp:
+                bad = next((i for i in range(max(len(got), len(exp))) if i >= len(got) or i >= len(exp) or got[i] != exp[i]), 0)
+                return "[lsn-content] replaying the listener's calls does not give the file that read returns: page %d differs (%d pages read, listener has %d)" % (bad, len(got), len(exp))
+        if k == "fx" and not self.loose and not self.private:
+            exp = self._pages(bytes(self.sh))
+            got = o[2:]
+            if int(o[1]) != len(self.sh) or got != exp:
+                bad = next((i for i in range(max(len(got), len(exp))) if i >= len(got) or i >= len(exp) or got[i] != exp[i]), 0)
+                return "[lsn-content] replaying the listener's calls does not give the file on disk: %s bytes on disk, listener has %d; page %d differs" % (o[1], len(self.sh), bad)
+        return None
+
+
 def make_oracle(ops):
     def oracle(out, ops=ops):
         fl = Flat()
+        ls = LsnOracle()
         for op, line in zip(ops, out):
-            msg = fl.step(op, line)
+            msg = fl.step(op, line) or ls.step(op, line)
             if msg:
                 return msg
         return None
@@ -293,6 +460,7 @@ class Gen:
         self.ops = []
         self.fl = Flat()
         self.win = []        # [off, maxlen, priv, dirty]
+        self.lsn = 0         # listener mode of the case (0 = none)
 
     CAP = 40 * PS      # predicted file sizes are kept below this (the model works on byte lists)
 
@@ -430,7 +598,10 @@ class Gen:
         n = self.r.choice([1, 10, self.r.randrange(0, 500), ln - rel, ln - rel + 1])
         if w[2] and rel + n <= ln and n:
             w[3] = True
-        self.emit("mw %d %d %d %d" % (w[0], rel, n, self.r.randrange(1, 251)))
+        verb = "mwr" if self.lsn and self.r.random() < 0.85 else "mw"
+        if self.lsn:
+            self.ctx.hist("lsn:store-" + ("reported" if verb == "mwr" else "unreported"))
+        self.emit("%s %d %d %d %d" % (verb, w[0], rel, n, self.r.randrange(1, 251)))
 
     def op_misc(self):
         r = self.r
@@ -486,6 +657,9 @@ class Gen:
 
     def final_reads(self):
         fs = self.fl.fsize
+        if self.lsn:
+            self.emit("rx")
+            self.emit("fx")
         self.emit("st")
         self.emit("r 0 %d" % (fs + 10))
         for w in self.win:
@@ -511,6 +685,43 @@ def case_shared(r, ctx, nops):
         g.final_reads()
         g.emit("close")
     return Case("shared", g.ops, make_oracle(g.ops))
+
+
+def case_listener(r, ctx, nops):
+    """one life of a file with a recording data listener attached: every result line carries the calls the listener received;
+    the oracle replays them on its own copy and compares with the file (rx / fx) - see LsnOracle"""
+    priv = r.random() < 0.3
+    g = Gen(r, ctx, "private-safe" if priv else "shared")
+    g.lsn = r.choice([1, 1, 2])
+    ctx.hist("lsn:mode%d%s" % (g.lsn, "+private" if priv else ""))
+    g.emit("lsn %d" % g.lsn)
+    g.open(maxoff=0 if priv else None)
+    if priv:
+        g.emit("tr %d" % (r.randrange(2, 10) * PS))
+        g.emit("w 0 %d %d" % (r.randrange(1, g.fl.fsize), r.randrange(1, 251)))
+        lay = g.layout(priv_p=0.7)
+    else:
+        lay = g.layout()
+        if r.random() < 0.5:
+            g.emit("w 0 %d %d" % (r.randrange(1, 5 * PS), r.randrange(1, 251)))
+    half = nops // 2
+    g.body(half, priv_p=0.6 if priv else 0.0, grow=(not priv) or r.random() < 0.5)
+    g.emit("rx")
+    if r.random() < 0.5:
+        g.emit("sy")
+    if lay == "whole-later" and not priv:
+        g.emit("am 0 %d 0" % (1 << 40))
+    g.body(nops - half, priv_p=0.6 if priv else 0.0, grow=(not priv) or r.random() < 0.5)
+    g.final_reads()
+    g.emit("close")
+    if not priv and r.random() < 0.4:            # the next life starts from the file the listener's copy describes
+        g.open(trunc=0)
+        g.layout()
+        g.body(nops // 4)
+        g.final_reads()
+        g.emit("close")
+    g.emit("lsn 0")
+    return Case("listener", g.ops, make_oracle(g.ops))
 
 
 def case_private_safe(r, ctx, nops):
@@ -674,7 +885,7 @@ def case_odd(r, ctx, nops):
 
 
 GENS = [(case_shared, 10), (case_private_safe, 4), (case_odd, 2), (case_private_remap, 0.6), (case_copy_beyond, 0.9),
-        (case_maxoff_clamp, 1.2)]
+        (case_maxoff_clamp, 1.2), (case_listener, 5)]
 
 
 def gen_cases(r, ctx, n, nops):
@@ -698,12 +909,20 @@ def signature(case, prob):
     return dict(kind=prob[0], op=case.kind, cls=cls)
 
 
-def shrink(h, case):
-    """drop op lines while the oracle still fails on the implementation"""
+def shrink(h, case, cls=""):
+    """drop op lines while the oracle still fails on the implementation (with the same class of failure)"""
     def fails(ops):
+        try:
+            os.remove(C.scratch() + "/c12s.dat")      # a re-open (trunc 0) must not find the file of an earlier attempt
+        except OSError:
+            pass
         rc, o, e = C.run_lines([h, C.scratch() + "/c12s.dat"], ops, timeout=30)
-        return len(o) < len(ops) or bool(make_oracle(ops)(o))
-    head, rest = case.ops[:1], case.ops[1:]
+        if len(o) < len(ops):
+            return True
+        msg = make_oracle(ops)(o)
+        return bool(msg) and (not cls or msg.startswith("[" + cls + "]"))
+    nh = next((i for i, x in enumerate(case.ops) if x.startswith("open ")), 0) + 1
+    head, rest = case.ops[:nh], case.ops[nh:]
     if not fails(case.ops):
         return case.ops
     rest = C.ddmin(rest, lambda sub: fails(head + sub), budget=120)
@@ -727,7 +946,7 @@ def explore(ctx, h, drv, n, nops, label):
             sig = signature(c, p)
             ops = c.ops
             if not ctx._match(sig) and p[0] == "oracle" and len(ctx.violations) < 3:
-                ops = shrink(h, c)
+                ops = shrink(h, c, sig.get("cls", ""))
             ctx.fail(sig, dict(case=c.kind, ops=ops, detail=p[1:]), str(p[1])[:400])
     return probs
 
@@ -740,13 +959,15 @@ def build(ctx):
 def run(ctx):
     ctx.cov["rule"] = ("a case is one life of a file: open (policy default/fibonacci/multiplier, maxoff, initial size), a window layout "
                        "(none / 1-3 partial windows / whole file, shared or private), 30-120 operations (write, read, copy, truncate, "
-                       "ensure_size, add/remove window, store through an acquired mapping, probe/sync) whose offsets and lengths are aimed "
+                       "ensure_size, add/remove window, store through an acquired mapping (reported to the listener by the caller or not), probe/sync; "
+                       "in the listener stream every line carries the recorded listener calls and rx/fx page hashes are taken mid-way and at the end) whose offsets and lengths are aimed "
                        "at window starts/ends, the end of the file and page edges +-{0,1,2,7,13,..}, final full read, close, often a re-open; "
                        "evaluations = operation lines run on implementation and model; distinct = distinct case text")
-    ctx.assumptions += ["no data listener (dlsnr) is attached; single thread (use_locks on)",
+    ctx.assumptions += ["single thread (use_locks on); the data listener of the `listener` stream records and returns 0 (mode 1), or "
+                        "additionally answers handled=true and resizes with truncate_unsafe (mode 2); all other streams run without a listener",
                         "file sizes stay below 1.3 MB, offsets below 2^62",
                         "Linux: MAP_SHARED windows are coherent with pread/pwrite; MAP_PRIVATE pages are copied page-wise on first store",
-                        "tree modelled: /repo + fix of F29 (_exfile_copy window test)"]
+                        "tree modelled: /repo + fix of F29 (_exfile_copy window test) + fix of C12-LSNOFF (onwrite offset of a window piece)"]
     ctx.translate()
     ok, drv_ok = ctx.prove(MODULE, THEOREMS)
     h = build(ctx)
